@@ -29,9 +29,12 @@ DEFAULT_ALLOWED = ["openid", "profile", "email", "address", "phone", "offline_ac
 SCOPES = ["openid", "profile", "email", "address", "phone", "offline_access", "foo", "openid"]
 
 
-def make_server(oidc=True, jwt=False, user="diana"):
+def make_server(oidc=True, jwt=False, user="diana", usage=None):
     from idpyoidc.server.authz import AuthzHandling
-    extra = {"authz": {"class": AuthzHandling, "kwargs": {"grant_config": {"usage_rules": copy.deepcopy(USAGE_A), "expires_in": 43200}}}}
+    rules = copy.deepcopy(USAGE_A)
+    if usage == "no_code_expiry":
+        del rules["authorization_code"]["expires_in"]
+    extra = {"authz": {"class": AuthzHandling, "kwargs": {"grant_config": {"usage_rules": rules, "expires_in": 43200}}}}
     s = opbase.make_op(jwt_tokens=jwt, extra=extra, user=user)
     if not oidc:
         from idpyoidc.server.oauth2.token import Token as OToken
@@ -61,9 +64,9 @@ CLS = {AuthorizationCode: "code", AccessToken: "access", RefreshToken: "refresh"
 class Runner:
     """one long-lived provider; handles (ints) for grants and tokens in creation order, mirroring the model's counter"""
 
-    def __init__(self, oidc=True, jwt=False):
+    def __init__(self, oidc=True, jwt=False, usage=None):
         self.oidc, self.jwt = oidc, jwt
-        self.s = make_server(oidc, jwt)
+        self.s = make_server(oidc, jwt, usage=usage)
         self.sm = self.s.context.session_manager
         self.h = {}          # real value / grant id -> handle
         self.val = {}        # handle -> token value
@@ -291,12 +294,12 @@ def model_line(o):
     raise ValueError(k)
 
 
-def cfg_line(oidc):
+def cfg_line(oidc, jwt=False):
     # prov reset <oidc> <allowed: client;scopes...>  (rules are fixed to USAGE_A in the driver, generated table checked separately)
     al = []
     for c in CLIENTS:
         al.append(c + "=" + " ".join(ALLOWED[c] if ALLOWED[c] is not None else DEFAULT_ALLOWED))
-    return "prov\treset\t" + ("1" if oidc else "0") + "\t" + enc_list(al)
+    return "prov\treset\t" + ("1" if oidc else "0") + "\t" + ("1" if jwt else "0") + "\t" + enc_list(al)
 
 
 def parse_model(out):
